@@ -46,7 +46,7 @@ class C13(P.Property):
             "randomised; non-trivial = at least one crash fired while a service existed; distinct = digest of (crash kind, path, "
             "handler site)* + recovery operation sequence")
     real_stub = dict(deployment="real client Service + real server + websockets on the simulated loop/TCP; FS mutation seam cuts the process "
-                                "at the chosen call; restart = new simulated process on the same directory with fresh in-memory state")
+                                "at the chosen call; restart = new simulated process on the same directory with fresh in-memory state; wall clock (time.time) and file time stamps (os.stat) simulated: follow the virtual clock, steppable, per-run stamp granularity")
     assumptions = ["an operation during which a crash fires may fail (timeout, closed connection): that is the fault, not a violation",
                    "a create-service that died before returning its sid is retried as a new service; leftover directories / *.tmp files are allowed"]
     probe_names = ["crash_meta_empty_or_absent", "crash_dir_without_files", "crash_between_index_and_state", "crash_client_between_key_and_flag",
